@@ -9,13 +9,74 @@
  *   svc <keyid> <secret> <region> <service> <body hex | ABSENT>
  *   ddb <keyid> <secret> <region> <op> <body hex | ABSENT>
  *   kat <n>      published AWS signatures (constants here; pmodel computes them with Spec.SigV4)
+ *   bodyset <hex>   fill the PERSISTENT body buffer (kept for the whole case): a new length gets a new exact-size
+ *                   block, the same length is written IN PLACE (same address, same length, new contents); the body
+ *                   token "@" of s3h/svc/ddb means "this buffer" (ABSENT before the first bodyset).  Anything the
+ *                   library remembers about a body from an earlier call must not be keyed on its address.
+ *   failat <k>      the k-th allocation (malloc/calloc/realloc/strdup made by the library code,
+ *                   -Wl,--wrap=malloc,--wrap=calloc,--wrap=realloc,--wrap=strdup) of the NEXT signing op fails.  If the
+ *                   call then reports failure it is repeated without the fault and that answer is printed; if it
+ *                   reports success its own answer is printed: either way the line must be the Spec's value.  The L2 part
+ *                   ends in " inj=fail" / " inj=ok" (what the call with the fault reported).
  * answer: "ok <returned strings as hex>" or "fail"; the same text is printed as L1 and L2 part,
  * except that inputs outside the property's domain print "ood" as L1 part (see in_domain below).
  */
+#include <errno.h>
 #include <time.h>
 
 #include "hcommon.h"
 #include "aws_sign.h"
+
+/* allocation-failure injection: only while fa_active (inside a signing call) */
+static volatile int fa_active = 0;	/* volatile: gcc "knows" malloc cannot read it */
+static volatile long fa_k = 0, fa_count = 0;
+
+void * __real_malloc(size_t);
+void * __real_calloc(size_t, size_t);
+void * __real_realloc(void *, size_t);
+char * __real_strdup(const char *);
+void * __wrap_malloc(size_t);
+void * __wrap_calloc(size_t, size_t);
+void * __wrap_realloc(void *, size_t);
+char * __wrap_strdup(const char *);
+
+static int
+fa_refuse(void)
+{
+
+	if (!fa_active || ++fa_count != fa_k)
+		return (0);
+	errno = ENOMEM;
+	return (1);
+}
+
+void *
+__wrap_malloc(size_t n)
+{
+
+	return (fa_refuse() ? NULL : __real_malloc(n));
+}
+
+void *
+__wrap_calloc(size_t a, size_t b)
+{
+
+	return (fa_refuse() ? NULL : __real_calloc(a, b));
+}
+
+void *
+__wrap_realloc(void * p, size_t n)
+{
+
+	return (fa_refuse() ? NULL : __real_realloc(p, n));
+}
+
+char *
+__wrap_strdup(const char * s)
+{
+
+	return (fa_refuse() ? NULL : __real_strdup(s));
+}
 
 static time_t now_v = 0;
 /* the clock advances by one second per reading within one signing call (reset for every op): a request whose strings
@@ -70,14 +131,41 @@ unres(const char * s, int slash)
 	return (1);
 }
 
+/* the persistent body buffer ("@"): an exact-size heap block kept until the case ends or the length changes */
+static uint8_t * pbody = NULL;
+static size_t pbodylen = 0;
+
+static void
+pbody_set(const char * tok)
+{
+	size_t len;
+	uint8_t * b = hc_unhex(tok, &len);
+
+	if (pbody != NULL && len == pbodylen) {
+		memcpy(pbody, b, len);		/* refilled in place */
+		free(b);
+	} else {
+		free(pbody);
+		pbody = b;
+		pbodylen = len;
+	}
+}
+
+/* *owned: the caller frees the block */
 static uint8_t *
-get_body(const char * tok, size_t * len)
+get_body(const char * tok, size_t * len, int * owned)
 {
 
-	if (strcmp(tok, "ABSENT") == 0) {
+	*owned = 0;
+	if (strcmp(tok, "@") == 0 && pbody != NULL) {
+		*len = pbodylen;
+		return (pbody);
+	}
+	if (strcmp(tok, "ABSENT") == 0 || strcmp(tok, "@") == 0) {
 		*len = 7;	/* must be ignored when body == NULL */
 		return (NULL);
 	}
+	*owned = 1;
 	return (hc_unhex(tok, len));
 }
 
@@ -87,6 +175,8 @@ put_str(const char * s)
 
 	hc_puthex((const uint8_t *)s, strlen(s));
 }
+
+static const char * inj_suffix = "";
 
 static void
 put_headers(int dom, int rc, char * sha, char * date, char * auth)
@@ -111,6 +201,7 @@ put_headers(int dom, int rc, char * sha, char * date, char * auth)
 		putchar(' ');
 		put_str(auth);
 	}
+	fputs(inj_suffix, stdout);
 	if (rc == 0) {
 		free(sha);
 		free(date);
@@ -133,21 +224,66 @@ static const char * kats[] = {
 	"5fa00fa31553b73ebf1942676e86291e8372ff2a2260956d9b8aae1d763fbf31",
 };
 
+/* one signing call; with a fault armed: the call under the fault, repeated without it if it reported failure */
+struct call { int v; char * a[6]; uint8_t * body; size_t bodylen; int expiry; };
+
+static int
+sign_once(struct call * c, char ** sha, char ** date, char ** auth, char ** q)
+{
+	char ** a = c->a;
+
+	tcalls = 0;
+	switch (c->v) {
+	case 0:
+		return (aws_sign_s3_headers(a[0], a[1], a[2], a[3], a[4], a[5], c->body, c->bodylen, sha, date, auth));
+	case 1:
+		*q = aws_sign_s3_querystr(a[0], a[1], a[2], a[3], a[4], a[5], c->expiry);
+		return (*q == NULL ? -1 : 0);
+	case 2:
+		return (aws_sign_svc_headers(a[0], a[1], a[2], a[3], c->body, c->bodylen, sha, date, auth));
+	default:
+		return (aws_sign_dynamodb_headers(a[0], a[1], a[2], a[3], c->body, c->bodylen, sha, date, auth));
+	}
+}
+
+static int
+sign(struct call * c, char ** sha, char ** date, char ** auth, char ** q)
+{
+	int rc;
+
+	inj_suffix = "";
+	if (fa_k == 0)
+		return (sign_once(c, sha, date, auth, q));
+	fa_count = 0;
+	fa_active = 1;
+	rc = sign_once(c, sha, date, auth, q);
+	fa_active = 0;
+	fa_k = 0;
+	inj_suffix = rc ? " inj=fail" : " inj=ok";
+	if (rc)
+		rc = sign_once(c, sha, date, auth, q);
+	return (rc);
+}
+
 int
 main(void)
 {
-	char * a[6];
+	struct call c;
 	char * sha, * date, * auth, * q;
-	uint8_t * body;
-	size_t bodylen;
-	int i, n, rc, dom;
+	int i, n, rc, dom, owned;
 
 	setvbuf(stdout, NULL, _IOFBF, 1 << 16);
 	while (hc_next()) {
 		n = 0;
 		tcalls = 0;
+		owned = 0;
+		c.body = NULL;
 		if (hc_is("case", 1)) {
 			now_v = 0;
+			free(pbody);
+			pbody = NULL;
+			pbodylen = 0;
+			fa_k = 0;
 			printf("case %s", hc_tok[1]);
 			HC_END();
 			/* a crash is attributed to the last case announced: do not lose the announcement */
@@ -160,21 +296,28 @@ main(void)
 			i = atoi(hc_tok[1]);
 			printf("kat %d %s", i,
 			    (i >= 0 && i < (int)(sizeof(kats) / sizeof(kats[0]))) ? kats[i] : "?");
+		} else if (hc_is("bodyset", 1)) {
+			pbody_set(hc_tok[1]);
+			printf("bodyset %zu", pbodylen);
+		} else if (hc_is("failat", 1)) {
+			fa_k = strtol(hc_tok[1], NULL, 10);
+			printf("failat %ld", (long)fa_k);
 		} else if (hc_is("s3h", 7)) {
 			for (n = 0; n < 6; n++)
-				a[n] = cstr(hc_tok[n + 1]);
-			body = get_body(hc_tok[7], &bodylen);
-			dom = unres(a[4], 0) && unres(a[5], 1);
-			rc = aws_sign_s3_headers(a[0], a[1], a[2], a[3], a[4], a[5], body, bodylen,
-			    &sha, &date, &auth);
+				c.a[n] = cstr(hc_tok[n + 1]);
+			c.v = 0;
+			c.body = get_body(hc_tok[7], &c.bodylen, &owned);
+			dom = unres(c.a[4], 0) && unres(c.a[5], 1);
+			rc = sign(&c, &sha, &date, &auth, &q);
 			put_headers(dom, rc, sha, date, auth);
-			free(body);
 		} else if (hc_is("s3q", 7)) {
 			for (n = 0; n < 6; n++)
-				a[n] = cstr(hc_tok[n + 1]);
-			dom = unres(a[0], 0) && unres(a[2], 0) && unres(a[4], 0) && unres(a[5], 1);
-			q = aws_sign_s3_querystr(a[0], a[1], a[2], a[3], a[4], a[5],
-			    (int)strtol(hc_tok[7], NULL, 10));
+				c.a[n] = cstr(hc_tok[n + 1]);
+			c.v = 1;
+			c.expiry = (int)strtol(hc_tok[7], NULL, 10);
+			dom = unres(c.a[0], 0) && unres(c.a[2], 0) && unres(c.a[4], 0) && unres(c.a[5], 1);
+			q = NULL;
+			(void)sign(&c, &sha, &date, &auth, &q);
 			for (i = 0; i < 2; i++) {
 				if (i == 1)
 					printf(" | ");
@@ -187,27 +330,26 @@ main(void)
 					put_str(q);
 				}
 			}
+			fputs(inj_suffix, stdout);
 			free(q);
 		} else if (hc_is("svc", 5) || hc_is("ddb", 5)) {
 			for (n = 0; n < 4; n++)
-				a[n] = cstr(hc_tok[n + 1]);
-			body = get_body(hc_tok[5], &bodylen);
-			dom = unres(a[2], 0) && unres(a[3], 0);
-			if (hc_tok[0][0] == 's')
-				rc = aws_sign_svc_headers(a[0], a[1], a[2], a[3], body, bodylen,
-				    &sha, &date, &auth);
-			else
-				rc = aws_sign_dynamodb_headers(a[0], a[1], a[2], a[3], body, bodylen,
-				    &sha, &date, &auth);
+				c.a[n] = cstr(hc_tok[n + 1]);
+			c.v = (hc_tok[0][0] == 's') ? 2 : 3;
+			c.body = get_body(hc_tok[5], &c.bodylen, &owned);
+			dom = unres(c.a[2], 0) && unres(c.a[3], 0);
+			rc = sign(&c, &sha, &date, &auth, &q);
 			put_headers(dom, rc, sha, date, auth);
-			free(body);
 		} else {
 			printf("bad-op");
 		}
+		if (owned)
+			free(c.body);
 		while (n > 0)
-			free(a[--n]);
+			free(c.a[--n]);
 		HC_END();
 	}
+	free(pbody);
 	free(hc_line);
 	return (0);
 }
